@@ -1,6 +1,6 @@
 (** C12 — flooding converges to valid forwarding paths. *)
-From Coq Require Import List NArith.
-From MM Require Import Model.Flood Proofs.FloodBase Proofs.FloodOnce Proofs.FloodValid Proofs.FloodConv Generated.C12.
+From Coq Require Import List NArith Bool.
+From MM Require Import Model.Flood Proofs.FloodBase Proofs.FloodOnce Proofs.FloodValid Proofs.FloodConv Generated.C12 Generated.C15.
 Import ListNotations.
 Local Open Scope N_scope.
 
@@ -36,12 +36,14 @@ Print Assumptions C12_open_reaches_origin.
     duplicates, other agents' announcements, local route changes, time passing
     -- in which the topology is stable and the announcement's seen-cache entry
     is not expired, until no copy of the announcement is in flight.  With hop
-    limits that do not cut the mesh (none, or at least the number of agents),
+    limits that do not cut the mesh (none, or at least K - 1 for K agents, the
+    longest possible path: the boundary max_hops = distance of the two ends of
+    a chain of max_hops + 1 agents is included),
     every agent connected to o has processed the announcement and holds o's
     presence and every route o advertises, at the announcement's sequence
     number and refreshed no earlier than the announcement. *)
 Theorem C12_flood_converges : forall cf K ops0 o ns0 ops,
-  (forall n, limit_of cf n = 0 \/ N.of_nat K <= limit_of cf n) ->
+  (forall n, limit_of cf n = 0 \/ N.of_nat K <= limit_of cf n + 1) ->
   let s0 := run cf (init K) ops0 in
   get (st_nodes s0) o = Some ns0 ->
   let sq := ns_seq ns0 + 1 in
@@ -86,6 +88,25 @@ Proof.
     vm_compute; reflexivity.
 Qed.
 
+(** Non-vacuity at the boundary: a chain of 4 agents with max_hops = 3 = K - 1
+    everywhere satisfies the limit hypothesis, and the far end (exactly
+    max_hops away) learns agent 0's route and presence over the 3-hop path. *)
+Example C12_example_boundary_limit :
+  let cf := [3; 3; 3; 3] in
+  (forall n, limit_of cf n = 0 \/ N.of_nat 4 <= limit_of cf n + 1) /\
+  let s0 := run cf (init 4) [C 0 1; C 1 2; C 2 3; L0 0 1 0] in
+  let s1 := next cf s0 (Announce 0) in
+  let s := run cf s1 [D 0; D 0; D 0] in
+  quiet_run cf 0 2 s1 [D 0; D 0; D 0] /\ st_flight s = [] /\
+  map (fun e => (kind_code (e_kind e), e_seq e, e_path e)) (entries_of s 3) = [(0, 2, [2; 1; 0]); (3, 2, [2; 1; 0])].
+Proof.
+  split.
+  - intros n. unfold limit_of.
+    destruct (N.to_nat n) as [|[|[|[|k]]]]; simpl; try (right; vm_compute; discriminate). left. destruct k; reflexivity.
+  - split; [apply quiet_run_syntactic; [repeat (apply Forall_cons; [exact I|]); apply Forall_nil|reflexivity]|].
+    split; vm_compute; reflexivity.
+Qed.
+
 Section SourceFacts.
 Import String.
 Local Open Scope string_scope.
@@ -127,3 +148,22 @@ Example C12_example_diamond :
 Proof.
   split; [unfold ex_ops; repeat (apply Forall_cons; [exact I|]); apply Forall_nil | vm_compute; reflexivity].
 Qed.
+
+(** The convergence / refresh theorems depend on the exact hop-limit
+    comparisons of the code (a copy whose path has exactly max_hops hops is
+    accepted; the replay test looks at the path as sent): the same regenerated
+    facts as in C15, checked here as well. *)
+Section HopFacts.
+Import String.
+Local Open Scope string_scope.
+Theorem C12_hop_limit_facts :
+  gen_handle_hop_checks = "gt:return-false,ge:return-true" /\
+  gen_replay_hop_checks = "gt:continue" /\
+  gen_hop_checks_placed_before_store_and_before_flood = true /\
+  gen_replay_path_has_self_prepended = true /\
+  gen_max_hops_plumbed_into_flood_config = true /\
+  (forall lim len, over_limit lim len = ((0 <? lim)%N && (lim <? len)%N)%bool) /\
+  (forall lim len, at_limit lim len = ((0 <? lim)%N && (lim <=? len)%N)%bool).
+Proof. repeat split; reflexivity. Qed.
+End HopFacts.
+Print Assumptions C12_hop_limit_facts.
